@@ -19,6 +19,7 @@ RULE = (
     "nothing and changes nothing. Non-trivial: dead set non-empty and contains a dead chain of length "
     ">= 2 or an initially unloaded input. Distinct by digest."
 )
+RULE += ' Added after seeded-change rounds 4-5: dotted (escaped-style) dead nets, dead x constants, an earlier remove_unloaded call with either flag value on another circuit in the same case.'
 ASSUMPTIONS = ["reference liveness computed on c.graph by the check", "inputs=True only on blackbox-free circuits (as the property states)"]
 EXHAUSTIVE_NOTE = "core: dead chains / ladders of 60, 400 and 2500 gates in both storage orders; all circuits with 2 inputs and up to 3 gates from {buf, and} over all fan-in choices and all output markings"
 EXAMPLES = {"quick": 1500, "thorough": 40000}
